@@ -183,10 +183,32 @@ def _load_world(modname):
     return _WORLD
 
 
-def execute_guarded(world, plan):
-    """Run one plan; classify anything unexpected as a harness error."""
+class PlanTimeout(BaseException):
+    pass
+
+
+def _on_alarm(signum, frame):
+    raise PlanTimeout()
+
+
+def execute_guarded(world, plan, limit=None):
+    """Run one plan; classify anything unexpected as a harness error.  A plan
+    that does not finish within `limit` wall seconds is a harness error too
+    (step caps inside the worlds turn real non-termination into violations)."""
+    import signal
+    limit = limit or float(os.environ.get("VERIF_PLAN_TIMEOUT", "120"))
+    old = None
+    try:
+        old = signal.signal(signal.SIGALRM, _on_alarm)
+        signal.setitimer(signal.ITIMER_REAL, limit)
+    except ValueError:
+        old = None
     try:
         res = world.execute(plan)
+    except PlanTimeout:
+        res = new_result()
+        res["status"] = "harness_error"
+        res["detail"] = "plan did not finish within %.0f s wall" % limit
     except HarnessError as e:
         res = new_result()
         res["status"] = "harness_error"
@@ -195,6 +217,10 @@ def execute_guarded(world, plan):
         res = new_result()
         res["status"] = "harness_error"
         res["detail"] = traceback.format_exc()[-1500:]
+    finally:
+        if old is not None:
+            signal.setitimer(signal.ITIMER_REAL, 0)
+            signal.signal(signal.SIGALRM, old)
     return res
 
 
@@ -457,7 +483,7 @@ def run_batch(modname, pid, tier, master, stages, workers, level="exploration",
             continue
         plan = min(c["plans"], key=lambda p: len(json.dumps(p)))
         orig_size = len(json.dumps(plan))
-        best, execs = minimise(world, plan, key, budget_s=float(opts.get("min_budget", 40.0)))
+        best, execs = minimise(world, plan, key, budget_s=float(opts.get("min_budget", 40.0)) / (1 + len(minimised_examples)))
         v = still_fails(world, best, key) or c["v"]
         path = write_replay(pid, best, v, {"plan_bytes": orig_size, "min_bytes": len(json.dumps(best)), "shrink_execs": execs})
         ok, txt = replay_in_fresh_interpreter(pid, path)
